@@ -241,6 +241,7 @@ m("pos-arg-node-bound-revert", "_adapter/generic_call_adapter.py", "            
 m("inserted-pos-arg-in-new-value-revert", "_adapter/generic_call_adapter.py", "                # the new argument is part of the new value\n                result_args.append(value.value)\n", "", ["C02"], "revert: comparison under fix is False when positional arguments are inserted")
 m("unchanged-pos-arg-update-revert", "_adapter/generic_call_adapter.py", 'flag="update" if unchanged else "fix",', 'flag="fix",', ["C05"], "revert: defaultdict(list) -> defaultdict(list, {}) reported as fix")
 m("used-externals-alias-revert", "_find_external.py", "            and node.func.id in names\n", "            and node.func.id == \"external\"\n", ["C13"], "revert: references through an aliased import are not found, trim removes their files")
+m("interrupted-session-trim-revert", "pytest_plugin.py", "            if unused_externals and trim_approved and not interrupted:", "            if unused_externals and trim_approved:", ["C13"], "revert: an import error in a test file + trim removes the externals it references")
 m("run-inline-external-import-only", "testing/_example.py", '                    if used_hasrepr(tree):\n                        required_imports.append("HasRepr")', '                    if used_hasrepr(tree) and used_externals(tree):\n                        required_imports.append("HasRepr")', ["C19"], "HasRepr import only added together with external")
 
 
